@@ -44,7 +44,11 @@ func checkModelFacts(c ExecCase) (*Violation, modelFacts) {
 	if pr.vars != nil {
 		vars = map[string]any(pr.vars)
 	}
-	mr := RunModel(pr.tree, pr.doc, c.Opts, vars, ev.quirk("subscript_drops_null"))
+	var quirks []string
+	if ev.quirk("exists_unary_sign_nonnumeric") {
+		quirks = append(quirks, "D17b")
+	}
+	mr := RunModel(pr.tree, pr.doc, c.Opts, vars, ev.quirk("subscript_drops_null"), quirks...)
 	if mr.Err != nil && mr.Err.dontCare {
 		f.excluded = "dont_care:" + firstWords(mr.Err.msg, 4)
 		return nil, f
@@ -63,6 +67,9 @@ func checkModelFacts(c ExecCase) (*Violation, modelFacts) {
 	}
 	if mr.UsedD19 {
 		f.kf = "D19"
+	}
+	if mr.UsedD17b {
+		f.kf = "D17b"
 	}
 	wantItems := mRenderSeq(mr.Items)
 	wantClass := EOK
